@@ -6,6 +6,8 @@ import (
 	"sync"
 
 	yaml "gopkg.in/yaml.v2"
+
+	"github.com/douban/gobeansdb/verifhook"
 )
 
 type CollisionTable struct {
@@ -66,7 +68,9 @@ func (table *CollisionTable) dump(path string) {
 		logger.Errorf("unmarshal yaml faild %s: %s", path, err.Error())
 		return
 	}
+	verifhook.Point("fs.rewrite.before", path, len(content))
 	err = ioutil.WriteFile(path, content, 0644)
+	verifhook.Point("fs.rewrite.after", path, len(content))
 	if err != nil {
 		logger.Errorf("write yaml failed %s: %s", path, err.Error())
 	}
